@@ -1,9 +1,147 @@
-"""Checker validation (DESIGN.md section 7): placeholder until the mutant corpus is committed."""
+"""Checker validation (DESIGN.md section 7): the checks are run on scratch copies of cola/
+(tempfile.mkdtemp outside /repo and /verif) with one construct broken ("must fire") or with a
+behaviour-preserving rewrite applied ("must stay silent").  A failure here means the *checker* is
+broken (exit 2); the property verdict always comes from analysing /repo itself.
+"""
+import ast
+import concurrent.futures as cf
+import json
+import os
+import shutil
+import sys
+import tempfile
+import time
+
+VERIF = os.path.dirname(os.path.dirname(os.path.abspath(__file__)))
+
+
+def load_mutants():
+    if VERIF not in sys.path:
+        sys.path.insert(0, VERIF)
+    from selftest.mutants import MUTANTS
+    return MUTANTS
+
+
+def make_copy(root):
+    tmp = tempfile.mkdtemp(prefix="cola-selftest-")
+    shutil.copytree(os.path.join(root, "cola"), os.path.join(tmp, "cola"), ignore=shutil.ignore_patterns("__pycache__", "*.pyc"))
+    return tmp
+
+
+def apply_edit(tmp, m):
+    for ed in m["edits"]:
+        p = os.path.join(tmp, ed["file"])
+        with open(p) as fh:
+            s = fh.read()
+        if s.count(ed["old"]) != 1:
+            return f"edit anchor occurs {s.count(ed['old'])} times in {ed['file']}"
+        s = s.replace(ed["old"], ed["new"])
+        try:
+            ast.parse(s)
+        except SyntaxError as e:
+            return f"mutant does not parse: {e}"
+        with open(p, "w") as fh:
+            fh.write(s)
+    return None
+
+
+def baseline_keys(pid, root):
+    from sa.main import run_property
+    ev = tempfile.mkdtemp(prefix="cola-selftest-ev-")
+    try:
+        rc, rep = run_property(pid, "quick", root, evidence_dir=ev, quiet=True)
+        return rc, {ob.key for ob in rep.obs if ob.status == "REFUTED"}, {ob.key for ob in rep.obs if ob.status == "UNDECIDED"}
+    finally:
+        shutil.rmtree(ev, ignore_errors=True)
+
+
+def run_mutant(args):
+    m, root, base = args
+    sys.path.insert(0, VERIF)
+    from sa.main import run_property
+    tmp = make_copy(root)
+    ev = os.path.join(tmp, "_ev")
+    t0 = time.time()
+    try:
+        err = apply_edit(tmp, m)
+        if err:
+            return {"id": m["id"], "ok": False, "why": f"invalid mutant: {err}", "stale": True}
+        rc, rep = run_property(m["property"], "quick", tmp, evidence_dir=ev, quiet=True)
+        refuted = {ob.key for ob in rep.obs if ob.status == "REFUTED"}
+        new = sorted(refuted - set(base.get(m["property"], [])))
+        if m.get("silent"):
+            ok = rc != 2 and not new
+            return {"id": m["id"], "ok": ok, "why": "stayed silent" if ok else f"raised {new[:3]} rc={rc}", "wall": time.time() - t0}
+        hit = [k for k in new if m["expect"] in k]
+        ok = rc == 1 and bool(hit)
+        why = f"fired {hit[0]}" if ok else f"rc={rc}, new refutations {new[:4]}, expected a key containing {m['expect']!r}; output tail: {rep.output[-3:] if getattr(rep, 'output', None) else ''}"
+        return {"id": m["id"], "ok": ok, "why": why, "wall": time.time() - t0}
+    finally:
+        shutil.rmtree(tmp, ignore_errors=True)
+
+
+def roundtrip_copy(root):
+    """whole-tree ast.unparse round trip: destroys every line number, column and comment"""
+    tmp = make_copy(root)
+    for dp, dn, fns in os.walk(os.path.join(tmp, "cola")):
+        for f in fns:
+            if f.endswith(".py"):
+                p = os.path.join(dp, f)
+                with open(p) as fh:
+                    src = fh.read()
+                with open(p, "w") as fh:
+                    fh.write(ast.unparse(ast.parse(src)) + "\n")
+    return tmp
+
+
+def run_roundtrip(args):
+    pid, root, base = args
+    sys.path.insert(0, VERIF)
+    from sa.main import run_property
+    tmp = roundtrip_copy(root)
+    try:
+        rc, rep = run_property(pid, "quick", tmp, evidence_dir=os.path.join(tmp, "_ev"), quiet=True)
+        refuted = {ob.key for ob in rep.obs if ob.status == "REFUTED"}
+        undec = {ob.key for ob in rep.obs if ob.status == "UNDECIDED"}
+        b_rc, b_ref, b_und = base
+        ok = rc == b_rc and refuted == b_ref and undec == b_und
+        why = "verdict and keys unchanged after ast.unparse round trip" if ok else f"rc {b_rc}->{rc}; refuted diff {sorted(refuted ^ b_ref)[:4]}; undecided diff {sorted(undec ^ b_und)[:4]}"
+        return {"id": f"roundtrip-{pid}", "ok": ok, "why": why}
+    finally:
+        shutil.rmtree(tmp, ignore_errors=True)
+
+
+def validate(pids, root="/repo", jobs=16, verbose=True):
+    sys.path.insert(0, VERIF)
+    mutants = [m for m in load_mutants() if m["property"] in pids]
+    base, base_full = {}, {}
+    for pid in pids:
+        rc, ref, und = baseline_keys(pid, root)
+        base[pid] = sorted(ref)
+        base_full[pid] = (rc, ref, und)
+    results = []
+    with cf.ProcessPoolExecutor(max_workers=jobs) as ex:
+        futs = [ex.submit(run_mutant, (m, root, base)) for m in mutants]
+        futs += [ex.submit(run_roundtrip, (pid, root, base_full[pid])) for pid in pids]
+        for f in futs:
+            results.append(f.result())
+    bad = [r for r in results if not r["ok"]]
+    if verbose:
+        for r in results:
+            print(f"selftest {'ok  ' if r['ok'] else 'FAIL'} {r['id']}: {r['why']}")
+        print(f"selftest: {len(results) - len(bad)}/{len(results)} passed ({len(mutants)} mutants, {len(pids)} round trips)")
+    return bad, results
 
 
 def validate_property(pid, jobs=16):
+    bad, results = validate([pid], jobs=jobs)
+    if bad:
+        print(f"ANALYSIS-INCOMPLETE property={pid} checker validation failed: " + "; ".join(f"{b['id']}: {b['why'][:120]}" for b in bad[:5]))
+        return 2
     return 0
 
 
 def main(args):
-    return 0
+    props = sorted(f[:-3] for f in os.listdir(os.path.join(VERIF, "props")) if f.startswith("C") and f.endswith(".py"))
+    bad, results = validate(props, root=args.root, jobs=args.jobs)
+    return 2 if bad else 0
